@@ -52,6 +52,12 @@ static echs_evstrm_t parse_tree(void)
 		echs_evstrm_t e = parse_tree();
 		echs_evstrm_t x = parse_tree();
 		return make_evfilt(e, x);
+	} else if (!strcmp(t, "C")) {
+		/* the clone of a stream nobody has looked at yet, the original is freed */
+		echs_evstrm_t o = parse_tree();
+		echs_evstrm_t c = o ? clone_echs_evstrm(o) : NULL;
+		if (o) free_echs_evstrm(o);
+		return c;
 	}
 	return NULL;
 }
@@ -499,6 +505,12 @@ int main(void)
 			for (int j = hash + 1; j < ntk; j++) {
 				for (const char *c = toks[j]; *c; c++) {
 					echs_event_t e = {0};
+					if (*c == 'c') {
+						/* go on with a clone of the stream as it stands (what evfilt and evmrul do with their
+						 * constituents when they are cloned), the original is freed */
+						if (s != NULL) { echs_evstrm_t k = clone_echs_evstrm(s); free_echs_evstrm(s); s = k; }
+						continue;
+					}
 					if (s != NULL) e = (*c == 'p') ? echs_evstrm_pop(s) : echs_evstrm_next(s);
 					if (echs_event_0_p(e)) printf("%s-", first ? "" : " ");
 					else printf("%s%016" PRIx64 ":%lu", first ? "" : " ", e.from.u, (unsigned long)e.oid);
